@@ -373,7 +373,10 @@ func c09docs() []c09doc {
 	corpus := CorpusScns()
 	corpus["override-debug"].Opts = []func(*loader.Options){loader.WithProfiles([]string{"debug"})}
 	var docs []c09doc
-	for _, n := range []string{"rich", "rich2", "rich3", "override", "override-debug", "extends", "include", "profiles", "version"} {
+	for _, n := range sortedKeys(corpus) {
+		if strings.HasPrefix(n, "bad-") || n == "missing-file" {
+			continue // inputs that are there to be rejected
+		}
 		docs = append(docs, c09doc{"full/" + n, corpus[n]})
 	}
 	for k, v := range c02extraInputs() {
